@@ -550,7 +550,7 @@ func (w *world) conversion() (gaps []int32) {
 	for s := int32(1); s <= 100000; s++ {
 		check(s)
 	}
-	stride := int64(r.Pick(99991, 9973))
+	stride := int64(r.Pick(99991, 997))
 	for s := int64(100000); s <= 1<<31-1; s += stride {
 		check(int32(s))
 	}
@@ -690,7 +690,7 @@ func main() {
 	// an age in the middle keeps 90 s margins on both sides), and exact controls
 	f := w.newFiler()
 	rng := r.SubRng("c09-e2e")
-	ne := r.Pick(10, 60)
+	ne := r.Pick(10, 200)
 	for i := 0; i < ne && len(gaps) > 0; i++ {
 		s := gaps[rng.Intn(len(gaps))]
 		vs := ttlMinutes(volumeTtlFor(s)) * 60
